@@ -386,3 +386,28 @@ def _nontrivial(prop, w):
 
 
 profiles.nontrivial = _nontrivial
+
+
+# =========================================================================== C06 under scheduler-interface faults
+def gen_flaky_scheduler(ch, prof):
+    """The limits of C06 hold 'at every instant': also in rounds whose status query or submission
+    fails (the round must not take a failed query for 'nothing is active')."""
+    sc = gen_scenario(ch, prof)
+    g = Gen(ch)
+    sc["env"]["p_stall"] = 0.0
+    mn = g.pick([1, 1, 2, 2, 3])
+    for grp in sc["groups"]:
+        grp["params"]["max_nodes"] = mn
+        if not grp["params"]["time_based_batching"]:
+            grp["params"]["per_node_batch_size"] = g.pick([1, 1, 2, 3])
+    p = {"squeue_fail": g.pick([0.15, 0.3, 0.6])}
+    if g.flip(0.3):
+        p["sbatch_fail"] = g.pick([0.1, 0.3])
+    sc["faults"] = {"p": p, "budget": g.rint(1, 4), "modes_sbatch_fail": ["all", "permanent", "garbage"],
+                    "modes_squeue_fail": ["all", "all", "k"]}
+    return sc
+
+
+profiles.profile("flaky_scheduler", mode="hpc", fault_free=False, kind="world", gen=gen_flaky_scheduler, max_jobs=8, min_jobs=3,
+                 max_recovery=4)
+profiles.PROFILE_PROPS["flaky_scheduler"] = ["C06"]
